@@ -49,7 +49,7 @@ CHECKS = {
              "(piece store as a partial function from hashes, File::open / read_exact failures and index panics as explicit "
              "outcomes): for every geometry whose piece count matches its total length the per-piece lengths partition the "
              "content exactly (C03_partition), and extraction from a store of those pieces yields, for every listed file in "
-             "order, exactly the bytes at its offset, with exactly its declared length (C03_extract, C03_lengths) - any number "
+             "order, exactly the bytes at its offset, with exactly its declared length, the files together being the whole content (C03_extract, C03_lengths, C03_files_concat) - any number "
              "of files, zero-length files, files inside one piece, any alignment; proved by induction over the file list and "
              "the piece loop with slice-concatenation lemmas. The pinned extractor is refuted (C03_pinned_refuted); the defect "
              "was found by the check and repaired by a fix: commit. Tie: the real Extractor runs on a piece store built from "
